@@ -34,3 +34,7 @@ add("C04", "symbolic execution of the Newton / Bregman iterations (symx): every 
     "Bounded symbolic model checking with fault injection: all control-flow paths of <= 3 (quick) / 4 (thorough) iterations incl. every position of a failing inner linear solve or mobility evaluation (solver-chosen), Anderson mixing with arbitrary coefficients; the transport density is additionally compared with an independent RT0-quadrature oracle.",
     "Exact linear solver (contract stub); face weights arbitrary positive only on (3,)/(2,) grids, elsewhere fixed rationals that change per call; norms uninterpreted; grids <= 6 cells (quick: 4 grids); convergence itself outside.",
     "DESIGN.md §5 C04")
+add("C20", "enumeration of the finite convention tables against the coordinate-system oracle, plus symbolic execution (symx) of Image.slice / reduce_axis / matrixToCartesianIndexing on symbolic voxel values, geometry and cut coordinate; z3 decides data selection by name vs by index",
+    "Exhaustive over the finite tables (dims 1..3, every axis, str/int forms, both directions) and bounded symbolic model checking of the data-selection claims (shapes in the evidence).",
+    "The convention pinned by the repo's tests / interpret_indexing is the reference; 1-D single-axis helpers and a 3-D inverse layout helper do not exist in the API.",
+    "DESIGN.md §5 C20")
